@@ -6,6 +6,7 @@ import (
 	"net"
 	"strconv"
 	"sync/atomic"
+	"syscall"
 	"time"
 
 	"github.com/samaritan-proxy/samaritan/pb/common"
@@ -28,6 +29,32 @@ func freePort() int {
 	}
 	defer ln.Close()
 	return ln.Addr().(*net.TCPAddr).Port
+}
+
+// holdPort reserves a loopback port for a listener that will bind it with SO_REUSEPORT (as the proxy does): the
+// returned socket is bound with SO_REUSEPORT but never listens, so other processes (bind :0 without SO_REUSEPORT) cannot be
+// handed the port meanwhile, and no connection is ever queued on it. release() closes it once the proxy has bound.
+func holdPort() (int, func()) {
+	fd, err := syscall.Socket(syscall.AF_INET, syscall.SOCK_STREAM, 0)
+	if err != nil {
+		return freePort(), func() {}
+	}
+	const soReusePort = 15
+	syscall.SetsockoptInt(fd, syscall.SOL_SOCKET, syscall.SO_REUSEADDR, 1)
+	if err := syscall.SetsockoptInt(fd, syscall.SOL_SOCKET, soReusePort, 1); err != nil {
+		syscall.Close(fd)
+		return freePort(), func() {}
+	}
+	if err := syscall.Bind(fd, &syscall.SockaddrInet4{Addr: [4]byte{127, 0, 0, 1}}); err != nil {
+		syscall.Close(fd)
+		return freePort(), func() {}
+	}
+	sa, err := syscall.Getsockname(fd)
+	if err != nil {
+		syscall.Close(fd)
+		return freePort(), func() {}
+	}
+	return sa.(*syscall.SockaddrInet4).Port, func() { syscall.Close(fd) }
 }
 
 // RedisOpts configures a Redis service in the SUT.
@@ -76,29 +103,46 @@ func hostsOf(addrs []string) []sutc.Host {
 
 // startRedisSvc creates and starts a Redis processor whose seed hosts are the given addresses.
 func startRedisSvc(s *sutc.SUT, cl *fakecluster.Cluster, seeds []string, o RedisOpts) (*RedisSvc, error) {
-	name := fmt.Sprintf("r%d_%d", s.Pid(), atomic.AddInt64(&svcSeq, 1))
-	port := freePort()
-	if err := s.NewProc(name, redisConfigJSON(port, o), hostsOf(seeds)); err != nil {
-		return nil, fmt.Errorf("proc_new: %v", err)
-	}
-	if err := s.StartProc(name); err != nil {
-		return nil, fmt.Errorf("proc_start: %v", err)
-	}
-	svc := &RedisSvc{S: s, CL: cl, Name: name, Port: port, Addr: "127.0.0.1:" + strconv.Itoa(port), Opts: o}
-	// wait for the listener
-	deadline := time.Now().Add(10 * time.Second)
-	for {
-		c, err := net.DialTimeout("tcp", svc.Addr, time.Second)
-		if err == nil {
-			c.Close()
-			break
+	// The port is picked by binding :0 and closing it again; another process may grab it before the proxy binds it
+	// (parallel runs). So the service counts as up only when the proxy itself reports a bound listener; otherwise retry.
+	var lastErr error
+	for attempt := 0; attempt < 5; attempt++ {
+		name := fmt.Sprintf("r%d_%d", s.Pid(), atomic.AddInt64(&svcSeq, 1))
+		port, release := holdPort()
+		if err := s.NewProc(name, redisConfigJSON(port, o), hostsOf(seeds)); err != nil {
+			return nil, fmt.Errorf("proc_new: %v", err)
 		}
-		if time.Now().After(deadline) {
-			return nil, fmt.Errorf("listener of %s did not come up: %v", name, err)
+		if err := s.StartProc(name); err != nil {
+			return nil, fmt.Errorf("proc_start: %v", err)
+		}
+		svc := &RedisSvc{S: s, CL: cl, Name: name, Port: port, Addr: "127.0.0.1:" + strconv.Itoa(port), Opts: o}
+		ok := waitBound(s, name, svc.Addr, 3*time.Second)
+		release()
+		if ok {
+			return svc, nil
+		}
+		lastErr = fmt.Errorf("listener of %s did not bind %s", name, svc.Addr)
+		s.StopProc(name, 10*time.Second)
+	}
+	return nil, lastErr
+}
+
+// waitBound waits until the processor reports its listener bound to addr.
+func waitBound(s *sutc.SUT, name, addr string, timeout time.Duration) bool {
+	deadline := time.Now().Add(timeout)
+	for time.Now().Before(deadline) {
+		if a, err := s.ProcAddr(name); err == nil && a != "" {
+			// the listener is published; a connect must succeed now
+			if c, err := net.DialTimeout("tcp", addr, time.Second); err == nil {
+				c.Close()
+				return true
+			}
+		} else if err != nil {
+			return false
 		}
 		time.Sleep(5 * time.Millisecond)
 	}
-	return svc, nil
+	return false
 }
 
 // Stat reads one counter of the service ("gauge:" prefix handled by caller).
